@@ -2,7 +2,8 @@ import Driver.Util
 import Driver.PyJson
 import Torf.Model.ReadStream
 import Torf.Spec.RoundTrip
-open Lean Torf Torf.Bencode Torf.Codec Torf.ReadStream
+import Torf.Model.Depth
+open Lean Torf Torf.Bencode Torf.Codec Torf.ReadStream Torf.Depth
 namespace Driver.C05
 
 def errName : Err → String
@@ -93,11 +94,58 @@ def codec (j : Json) : Except String Json := do
                  ("hyp", jbool (canon v && utf8Keys v))]
   | none => return jobj [("decoded", Json.null)]
 
+
+/-- frame costs measured by the harness on the code under test -/
+def getCost (j : Json) : Except String Cost := do
+  let c ← j.getObjVal? "cost"
+  return { dv := ← getNat c "dv", dl := ← getNat c "dl", dd := ← getNat c "dd", abc := ← getNat c "abc",
+           ev0 := ← getNat c "ev0", ev := ← getNat c "ev", el := ← getNat c "el", ed := ← getNat c "ed",
+           es := ← getNat c "es", edt := ← getNat c "edt", ebool := ← getNat c "ebool",
+           gen := ← getNat c "gen", genx := ← getNat c "genx", enc0 := ← getNat c "enc0",
+           rd := ← getNat c "rd", dp := ← getNat c "dp", dps := ← getNat c "dps", ih := ← getNat c "ih",
+           rdf := ← getNat c "rdf", wrf := ← getNat c "wrf" }
+
+/-- op `c05.depth` : {x, validate, vok, cd, cost, B, sl, se} ↦ the budget-limited models
+    (`Torf.Model.Depth`): frames needed by the reader / the writer / the info hash, and what
+    `read_stream`, `dump`, `infohash`, `read(path)`, `write(path)` do with `B` frames left;
+    `dumpSlack` = `dump` with `B + sl + se` frames (what `C05_depth_dump_read` promises),
+    `rel` = does the measured cost satisfy `Rel C sl se` -/
+def depthOp (j : Json) : Except String Json := do
+  let x ← getHex j "x"
+  let validate ← getBool j "validate"
+  let env ← mkEnv j
+  let C ← getCost j
+  let B ← getNat j "B"
+  let sl ← getNat j "sl"
+  let se ← getNat j "se"
+  let (hyp, flags) := hypOf env x
+  let rneed : Json := match parse env.lim x with
+    | some (.dict enc) => jnat (readNeed C enc)
+    | _ => Json.null
+  let r := readB C B env x validate
+  let fields : List (String × Json) :=
+    match r with
+    | .error e => [("read", jobj [("err", jstr (errName e))])]
+    | .ok md =>
+      [("read", jobj [("ok", Json.null)]),
+       ("dumpNeed", jnat (dumpNeed C md)), ("infoNeed", jnat (infoNeed C md)),
+       ("dump", jexc jhex (dumpB C B env md validate)),
+       ("dumpSlack", jexc jhex (dumpB C (B + sl + se) env md validate)),
+       ("infoBytes", jexc jhex (infoBytesB C B env md))]
+  let ffields : List (String × Json) :=
+    match readFileB C B env x validate with
+    | .error e => [("readFile", jobj [("err", jstr (errName e))])]
+    | .ok md => [("readFile", jobj [("ok", Json.null)]),
+                 ("writeFile", jexc jhex (writeFileB C B env md validate))]
+  return jobj (fields ++ ffields ++
+    [("readNeed", rneed), ("rel", jbool (relOk C sl se)), ("hyp", jbool hyp), ("flags", jobj flags)])
+
 def handle (op : String) (j : Json) : Except String Json :=
   match op with
   | "c05.parse" => parseOp j
   | "c05.roundtrip" => roundtrip j
   | "c05.codec" => codec j
+  | "c05.depth" => depthOp j
   | _ => throw s!"unknown op {op}"
 
 end Driver.C05
